@@ -83,6 +83,40 @@ pub mod q {
     // RankSmall<1,11> (32 words per block, sub-blocks of 8 words): one block
     rank_harness!(rs3_n5_len300, 5, 300, 36, rs3::<5>);
 
+    /// Structured contents for the variants with large blocks: `N` words of
+    /// a concrete fill (all zeros or all ones -- the latter drives every
+    /// relative counter to its maximum), with the words around block and
+    /// sub-block boundaries and the tail word symbolic.
+    macro_rules! rank_structured {
+        ($name:ident, $N:expr, $LEN:expr, $UNW:literal, $build:expr, [$($idx:expr),+]) => {
+            #[kani::proof]
+            #[kani::unwind($UNW)]
+            pub fn $name() {
+                const N: usize = $N;
+                const LEN: usize = $LEN;
+                let fill: bool = kani::any();
+                let mut words = [if fill { !0usize } else { 0usize }; N];
+                $( words[$idx] = kani::any(); )+
+                let bits = unsafe { BitVec::from_raw_parts(words, LEN) };
+                let r = $build(bits);
+                let p: usize = kani::any();
+                let q = if p < LEN { p } else { LEN };
+                let exp = ones_before(&words, q);
+                assert_eq!(r.rank(p), exp);
+                assert_eq!(r.rank_zero(p), p - exp);
+                assert_eq!(r.num_ones(), ones_before(&words, LEN));
+                kani::cover!(fill && p < LEN && exp >= 1000, "about a thousand ones before the position (wide relative counters)");
+                kani::cover!(!fill && p < LEN && exp > 0, "sparse contents");
+                kani::cover!(p >= LEN);
+                std::mem::forget(r);
+            }
+        };
+    }
+    // RankSmall<1,10>: 16 words per block, sub-blocks of 4 words
+    rank_structured!(rs2_structured_n33, 33, 64 * 33 - 9, 36, rs2::<33>, [0, 3, 4, 15, 16, 32]);
+    // RankSmall<1,11>: 32 words per block, sub-blocks of 8 words
+    rank_structured!(rs3_structured_n33, 33, 64 * 33 - 9, 36, rs3::<33>, [0, 8, 24, 32]);
+
     /// `AddNumBits` over a bit vector: cached number of ones, length and
     /// indexing are those of the vector (stale tail included).
     #[kani::proof]
@@ -127,6 +161,64 @@ pub mod q {
 #[cfg(feature = "c01_t")]
 pub mod t {
     use super::*;
+
+    /// RankSmall<3,13>: one block is 128 words, and 130 fully symbolic words do
+    /// not finish; structured contents instead: the words around the block and
+    /// sub-block boundaries and the tail word are symbolic, the rest is one of
+    /// two concrete fills (all zeros, all ones: every relative counter at its
+    /// maximum).
+    fn rs4_structured(fill: usize) {
+        const N: usize = 130;
+        const LEN: usize = 64 * N - 5;
+        let mut words = [fill; N];
+        let sym: [usize; 8] = kani::any();
+        let idx: [usize; 8] = [0, 15, 16, 63, 64, 127, 128, 129];
+        let mut k = 0;
+        while k < 8 {
+            words[idx[k]] = sym[k];
+            k += 1;
+        }
+        let bits = unsafe { BitVec::from_raw_parts(words, LEN) };
+        let r = rs4::<N>(bits);
+        let p: usize = kani::any();
+        let q = if p < LEN { p } else { LEN };
+        let exp = ones_before(&words, q);
+        assert_eq!(r.rank(p), exp);
+        let total = ones_before(&words, LEN);
+        assert_eq!(r.num_ones(), total);
+        assert_eq!(r.rank_zero(p), p - exp);
+        kani::cover!(p >= 64 * 128 && p < LEN, "position in the second block");
+        kani::cover!(p / 64 == 16, "position after the first sub-block boundary");
+        kani::cover!((words[N - 1] >> 59) != 0, "stale bits beyond len");
+        std::mem::forget(r);
+    }
+    #[kani::proof]
+    #[kani::unwind(140)]
+    pub fn rs4_structured_zeros() {
+        rs4_structured(0);
+    }
+    #[kani::proof]
+    #[kani::unwind(140)]
+    pub fn rs4_structured_ones() {
+        rs4_structured(!0);
+    }
+
+    /// Rank9 over `AddNumBits<BitVec>` (a wrapper stack): same answers.
+    #[kani::proof]
+    #[kani::unwind(12)]
+    pub fn rank9_over_add_num_bits() {
+        let words: [usize; 9] = kani::any();
+        const LEN: usize = 513;
+        let bits = unsafe { BitVec::from_raw_parts(words, LEN) };
+        let a = unsafe { AddNumBits::from_raw_parts(bits, ones_before(&words, LEN)) };
+        let r = Rank9::new(a);
+        let p: usize = kani::any();
+        let q = if p < LEN { p } else { LEN };
+        assert_eq!(r.rank(p), ones_before(&words, q));
+        assert_eq!(r.num_ones(), ones_before(&words, LEN));
+        kani::cover!(p >= LEN);
+        std::mem::forget(r);
+    }
     rank_harness!(rank9_n9_len576, 9, 576, 12, rank9::<9>);
     rank_harness!(rank9_n9_len544, 9, 544, 12, rank9::<9>);
     rank_harness!(rank9_n17_len1087, 17, 1087, 20, rank9::<17>);
